@@ -535,6 +535,14 @@ func (e *Enc) call(fr *Frame, st *State, c *ssa.Call) *State {
 	}
 	if pure || e.spec.pure[name] {
 		e.ufResult(fr, c, "X_"+san(name), args, cc.Args)
+		if name == "strconv.Quote" && len(args) == 1 {
+			// what %q prints for a string
+			if t, ok := fr.vals[c]; ok {
+				e.d.decl("strquote", "(Str) Str")
+				e.assume("(= " + t + " (strquote " + args[0] + "))")
+				e.usedTrusted["strconv.Quote(s) is what %q prints for s"] = true
+			}
+		}
 		e.olderResults(fr, c, st)
 		e.resultFacts(fr, c, callee)
 		if (name == "context.Background" || name == "context.TODO") && len(args) == 0 {
